@@ -102,7 +102,7 @@ def check(prop, modname, tier, seed):
             rep.violation(n, path, False)
         for u in la['unsupported']:
             rep.undecided.append('Level-A part outside the supported subset: ' + u)
-    ev = {'property_id': prop, 'tier': tier, 'seed': seed, 'level': 'exploration',
+    ev = {'property_id': prop, 'tier': tier, 'seed': seed, 'level': getattr(mod, 'LEVEL', 'exploration'),
           'coverage': {'evaluations': evals, 'distinct_nontrivial': distinct, 'rule': mod.RULE, 'samples': samples,
                        'exhaustive': True, 'scope': mod.SCOPE[tier], 'functions_under_contract': mod.CONTRACTS,
                        'counters': dict(extra), 'violation_classes': ['%s[%s] x%d' % (c, k, len(v)) for (c, k), v in byclass.items()],
